@@ -387,6 +387,7 @@ type genMeta struct {
 	Extra       map[string]any   `json:"extra,omitempty"`
 	Hangs       int              `json:"hangs"`
 	FindingHits map[string][]int `json:"finding_hits,omitempty"`
+	Explain     string           `json:"explain_template,omitempty"`
 }
 
 func mergeHist(dst, src map[string]int) {
